@@ -6,6 +6,7 @@
 package main
 
 import (
+	"net/url"
 	"fmt"
 	"math/rand/v2"
 	"slices"
@@ -44,11 +45,12 @@ type opLog struct {
 	Result string `json:"result"`
 }
 
-var clientIDs = []string{"web", "web2", "post", "native", "jwt", "nativesec", "uasec"}
+var clientIDs = []string{"web", "web2", "post", "native", "jwt", "nativesec", "uasec", "webpub"}
 
 // oddly registered clients (DESIGN 6a): a native and a user-agent application that nevertheless hold a secret.
 // Success is grey for them; refusals (no / wrong secret, another client's code, ...) are as strict as for anybody.
-var oddClients = map[string]bool{"nativesec": true, "uasec": true}
+// "webpub" is the opposite oddity: application type web, but a public client (auth method none).
+var oddClients = map[string]bool{"nativesec": true, "uasec": true, "webpub": true}
 
 func setup(w *opdrv.World) map[string]*vclient.Client {
 	cl := opdrv.StdClients(w.Store)
@@ -56,7 +58,7 @@ func setup(w *opdrv.World) map[string]*vclient.Client {
 	cl["web"].Redirects = []string{opdrv.WebRedirect, "https://web.example/cb2"}
 	cl["web2"].Redirects = []string{opdrv.Web2Redirect, "https://web2.example/cb2"}
 	cl["post"].Redirects = []string{opdrv.PostRedirect, "https://post.example/cb2"}
-	cl["native"].Redirects = []string{opdrv.NativeRedirect, "com.example.native:/cb2"}
+	cl["native"].Redirects = []string{opdrv.NativeRedirect, "com.example.native:/cb2", "http://127.0.0.1:7777/cb", "http://localhost/app/cb?x=1"}
 	cl["jwt"].Redirects = []string{opdrv.JWTRedirect, "https://jwt.example/cb2"}
 	ns := vclient.Confidential("nativesec", "secret-nativesec", "http://127.0.0.1:7000/cb", "com.example.nativesec:/cb2")
 	ns.AppType = op.ApplicationTypeNative
@@ -67,6 +69,10 @@ func setup(w *opdrv.World) map[string]*vclient.Client {
 	ua.Auth = oidc.AuthMethodPost
 	w.Store.AddClient(ua)
 	cl["uasec"] = ua
+	wp := vclient.Public("webpub", "https://webpub.example/cb", "https://webpub.example/cb2")
+	wp.AppType = op.ApplicationTypeWeb
+	w.Store.AddClient(wp)
+	cl["webpub"] = wp
 	return cl
 }
 
@@ -233,7 +239,7 @@ func runHistory(run *ev.Run, caseIdx int, router int) {
 				auth = opdrv.IDOnly(pc.ID)
 				credValid = pc.Auth == oidc.AuthMethodNone
 			}
-			uriKind := pick(r, "same", "same", "same", "same", "other", "absent", "case", "slash", "query")
+			uriKind := pick(r, "same", "same", "same", "same", "other", "absent", "case", "slash", "query", "loopback-variant", "loopback-variant")
 			uri := m.uri
 			switch uriKind {
 			case "case":
@@ -241,6 +247,37 @@ func runHistory(run *ev.Run, caseIdx int, router int) {
 				if i := strings.LastIndexByte(uri, '/'); i >= 0 && strings.ToUpper(uri[i:]) != uri[i:] {
 					uri = uri[:i] + strings.ToUpper(uri[i:])
 				} else {
+					uriKind = "same"
+				}
+			case "loopback-variant":
+				// a loopback URI other than the one of the request: another port, another spelling of the host or the
+				// other scheme (what RFC 8252 tolerates at the AUTHORIZATION endpoint only)
+				if u, err := url.Parse(uri); err == nil && (u.Hostname() == "127.0.0.1" || u.Hostname() == "localhost" || u.Hostname() == "::1") {
+					switch r.IntN(3) {
+					case 0:
+						u.Host = u.Hostname() + ":" + fmt.Sprint(20000+r.IntN(9999))
+						if strings.Contains(u.Hostname(), ":") {
+							u.Host = "[" + u.Hostname() + "]:" + fmt.Sprint(20000+r.IntN(9999))
+						}
+					case 1:
+						h := "localhost"
+						if u.Hostname() == "localhost" {
+							h = "127.0.0.1"
+						}
+						if p := u.Port(); p != "" {
+							h += ":" + p
+						}
+						u.Host = h
+					default:
+						if u.Scheme == "http" {
+							u.Scheme = "https"
+						} else {
+							u.Scheme = "http"
+						}
+					}
+					uri = u.String()
+				}
+				if uri == m.uri {
 					uriKind = "same"
 				}
 			case "slash":
